@@ -223,8 +223,8 @@ func (m *c21Mon) afterBlock() {
 	}
 	subD := c21Diff(post.SubMod, pre.SubMod)
 	iprpcD := c21Diff(post.Iprpc, pre.Iprpc)
-	payout := c21AnyNeg(subD)         // cu-tracker payout(s) moved coins out of the subscription module
-	iprpcPaid := c21AnyNeg(iprpcD)    // IPRPC distribution took coins out of the IPRPC pool
+	payout := c21AnyNeg(subD)      // cu-tracker payout(s) moved coins out of the subscription module
+	iprpcPaid := c21AnyNeg(iprpcD) // IPRPC distribution took coins out of the IPRPC pool
 	leftD := c21Diff(post.ValLeft, pre.ValLeft)
 
 	if !refill {
